@@ -1,421 +1,9 @@
 /-
-  Proofs.GoTieMisc — small functions TRANSLATED from the Go source
-  (AgeModel/Extracted/Funcs.lean, regenerated on every run) compute what the
-  hand-written model computes, for ALL inputs: the rune loops over strings,
-  stream's nonce arithmetic, format's string predicates, the plugin-name check,
-  age.slicesEqual.
+  Proofs.GoTieMisc — umbrella for the small translated functions (kept for older importers):
+  Proofs.GoTieRunes, GoTieNonce, GoTieFmtStr, GoTiePlugName, GoTieSlicesEq.
 -/
-import AgeModel.GoSem
-import AgeModel.Stream
-import AgeModel.Format
-import AgeModel.Keys
-import AgeModel.Extracted.Funcs
-import Proofs.Nonce
-namespace AgeModel
-namespace GoTie
-open Extracted
-
-/-! ## ranging over the runes of a string -/
-
-theorem u8_lt_128 (b : UInt8) : (b < 0x80) ↔ b.toNat < 128 := UInt8.lt_iff_toNat_lt
-
-theorem decodeRune_ascii (b : UInt8) (rest : List UInt8) (h : b.toNat < 0x80) :
-    Go.decodeRune (b :: rest) = (Int.ofNat b.toNat, 1) := by
-  simp only [Go.decodeRune, h, if_true]
-
-theorem decodeRune_width (l : List UInt8) : 1 ≤ (Go.decodeRune l).2 := by
-  unfold Go.decodeRune
-  split
-  · exact Nat.le_refl _
-  · dsimp only
-    repeat' split
-    all_goals first | decide | (dsimp only; omega)
-
-theorem decodeRune_nonascii (b : UInt8) (rest : List UInt8) (h : 0x80 ≤ b.toNat) :
-    0x80 ≤ (Go.decodeRune (b :: rest)).1 := by
-  have hb := b.toNat_lt
-  simp only [Go.decodeRune]
-  repeat' split
-  all_goals first
-    | decide
-    | omega
-    | (simp only [Int.ofNat_eq_natCast]; omega)
-
-theorem runesFrom_any (P : Int → Bool) (Q : UInt8 → Bool)
-    (h1 : ∀ b : UInt8, b.toNat < 128 → P (Int.ofNat b.toNat) = Q b)
-    (h2 : ∀ b : UInt8, 128 ≤ b.toNat → Q b = true)
-    (h3 : ∀ r : Int, 128 ≤ r → P r = true) :
-    ∀ (fuel off : Nat) (s : List UInt8), s.length ≤ fuel →
-      (Go.runesFrom fuel off s).any (fun p => P p.2) = s.any Q := by
-  intro fuel
-  induction fuel with
-  | zero =>
-    intro off s hs
-    have : s = [] := List.eq_nil_of_length_eq_zero (Nat.le_zero.mp hs)
-    subst this; rfl
-  | succ fuel ih =>
-    intro off s hs
-    cases s with
-    | nil => rfl
-    | cons b rest =>
-      simp only [Go.runesFrom, List.any_cons]
-      by_cases hb : b.toNat < 128
-      · rw [decodeRune_ascii b rest hb]
-        simp only [List.drop_succ_cons, List.drop_zero]
-        rw [ih (off + 1) rest (by simpa using hs), h1 b hb]
-      · have hb' : 128 ≤ b.toNat := Nat.le_of_not_lt hb
-        rw [h3 _ (decodeRune_nonascii b rest hb'), h2 b hb']
-        simp only [Bool.true_or]
-
-theorem runes_any (P : Int → Bool) (Q : UInt8 → Bool)
-    (h1 : ∀ b : UInt8, b.toNat < 128 → P (Int.ofNat b.toNat) = Q b)
-    (h2 : ∀ b : UInt8, 128 ≤ b.toNat → Q b = true)
-    (h3 : ∀ r : Int, 128 ≤ r → P r = true) (s : List UInt8) :
-    (Go.runes s).any (fun p => P p.2) = s.any Q :=
-  runesFrom_any P Q h1 h2 h3 s.length 0 s (Nat.le_refl _)
-
-/-- the test `c < 33 || c > 126` finds a rune iff it finds a byte -/
-theorem runes_any_bad (s : Bytes) :
-    (Go.runes s).any (fun p => decide (p.2 < 33) || decide (p.2 > 126)) = s.any (fun b => b < 33 || b > 126) := by
-  refine runes_any (fun r => decide (r < 33) || decide (r > 126)) (fun b => b < 33 || b > 126) ?_ ?_ ?_ s
-  · intro b hb
-    simp only [UInt8.lt_iff_toNat_lt, gt_iff_lt, Int.ofNat_eq_natCast]
-    congr 1
-    · simp only [decide_eq_decide]; show _ ↔ b.toNat < 33; omega
-    · simp only [decide_eq_decide]; show _ ↔ 126 < b.toNat; omega
-  · intro b hb
-    simp only [UInt8.lt_iff_toNat_lt, gt_iff_lt, Bool.or_eq_true, decide_eq_true_eq]
-    right; show 126 < b.toNat; omega
-  · intro r hr
-    simp only [Bool.or_eq_true, decide_eq_true_eq]
-    omega
-
-theorem runesFrom_ascii : ∀ (fuel off : Nat) (s : List UInt8), s.length ≤ fuel → Go.isAscii s = true →
-    Go.runesFrom fuel off s =
-      (List.range' off s.length).zipWith (fun i b => (Int.ofNat i, Int.ofNat b.toNat)) s := by
-  intro fuel
-  induction fuel with
-  | zero =>
-    intro off s hs _
-    have : s = [] := List.eq_nil_of_length_eq_zero (Nat.le_zero.mp hs)
-    subst this; rfl
-  | succ fuel ih =>
-    intro off s hs ha
-    cases s with
-    | nil => rfl
-    | cons b rest =>
-      simp only [Go.isAscii, List.all_cons, Bool.and_eq_true, decide_eq_true_eq] at ha
-      have hb : b.toNat < 128 := UInt8.lt_iff_toNat_lt.mp ha.1
-      simp only [Go.runesFrom, List.length_cons, List.range'_succ, List.zipWith_cons_cons]
-      rw [decodeRune_ascii b rest hb]
-      simp only [List.drop_succ_cons, List.drop_zero]
-      rw [ih (off + 1) rest (by simpa using hs) ha.2]
-
-/-- on an ASCII string the runes are the bytes, at their own offsets -/
-theorem runes_ascii (s : Bytes) (h : Go.isAscii s = true) :
-    Go.runes s = (List.range s.length).zipWith (fun i b => (Int.ofNat i, Int.ofNat b.toNat)) s := by
-  rw [List.range_eq_range']
-  exact runesFrom_ascii s.length 0 s (Nat.le_refl _) h
-
-/-- every rune that starts at a non-ASCII byte is itself ≥ 0x80 -/
-theorem runes_all_ascii_iff (s : Bytes) :
-    (Go.runes s).all (fun p => decide (0 ≤ p.2 ∧ p.2 < 128)) = Go.isAscii s := by
-  have := runes_any (fun r => !decide (0 ≤ r ∧ r < 128)) (fun b => !decide (b < 0x80)) ?_ ?_ ?_ s
-  · unfold Go.isAscii
-    rw [List.all_eq_not_any_not, List.all_eq_not_any_not (l := s)]
-    exact congrArg (!·) this
-  · intro b hb
-    show (!decide (0 ≤ Int.ofNat b.toNat ∧ Int.ofNat b.toNat < 128)) = !decide (b < 0x80)
-    have e1 : decide (b < 0x80) = true := decide_eq_true ((u8_lt_128 b).mpr hb)
-    have e2 : decide (0 ≤ Int.ofNat b.toNat ∧ Int.ofNat b.toNat < 128) = true :=
-      decide_eq_true ⟨Int.natCast_nonneg _, by simp only [Int.ofNat_eq_natCast]; omega⟩
-    rw [e1, e2]
-  · intro b hb
-    simp only [u8_lt_128, Bool.not_eq_true', decide_eq_false_iff_not]
-    omega
-  · intro r hr
-    simp only [Bool.not_eq_true', decide_eq_false_iff_not]
-    omega
-
-/-! ## internal/stream: the nonce is an 88-bit big-endian counter and a flag byte -/
-
-/-- `[n-1, n-2, …, 0]` -/
-def downFrom : Nat → List Int
-  | 0 => []
-  | n + 1 => Int.ofNat n :: downFrom n
-
-theorem idx_append_mid {α : Type} (p : List α) (x : α) (q : List α) (n : Nat) (hn : p.length = n) :
-    Go.idx (p ++ x :: q) (Int.ofNat n) = .ok x := by
-  subst hn
-  simp [Go.idx]
-
-theorem set_append_mid {α : Type} (p : List α) (x y : α) (q : List α) (n : Nat) (hn : p.length = n) :
-    Go.set (p ++ x :: q) (Int.ofNat n) y = .ok (p ++ y :: q) := by
-  subst hn
-  simp [Go.set]
-
-theorem toUInt8_succ (m : Nat) : m.toUInt8 + 1 = (m + 1).toUInt8 := by
-  apply UInt8.toNat_inj.mp
-  simp [Nat.toUInt8]
-
-theorem incNonce_loop : ∀ (n i : Nat) (suffix : Bytes), i + 1 < 256 ^ n →
-    stream_incNonce_loop1 (downFrom n) (be n i ++ suffix) = .ok (.next (be n (i + 1) ++ suffix))
-  | 0, i, suffix, h => by simp at h
-  | n + 1, i, suffix, h => by
-    have hlen := be_length n (i / 256)
-    simp only [downFrom, be, stream_incNonce_loop1, List.append_assoc, List.singleton_append,
-      idx_append_mid _ _ _ n hlen, set_append_mid _ _ _ _ n hlen, bind, Except.bind, pure, Except.pure]
-    rw [toUInt8_succ]
-    by_cases hc : i % 256 = 255
-    · have h0 : (i % 256 + 1).toUInt8 = 0 := by rw [hc]; rfl
-      have hq : i / 256 + 1 < 256 ^ n := by rw [Nat.pow_succ] at h; omega
-      have hn : n ≠ 0 := by intro h0; subst h0; simp at hq
-      have e1 : (i + 1) / 256 = i / 256 + 1 := by omega
-      have e2 : (i + 1) % 256 = 0 := by omega
-      rw [h0, e1, e2]
-      have hn' : (Int.ofNat n == 0) = false := by
-        simp only [Int.ofNat_eq_natCast, beq_eq_false_iff_ne, ne_eq]; omega
-      simp only [bne_self_eq_false, Bool.false_eq_true, if_false, hn']
-      exact incNonce_loop n (i / 256) _ hq
-    · have h0 : ((i % 256 + 1).toUInt8 != 0) = true := by
-        simp only [bne_iff_ne, ne_eq]
-        intro hh
-        have := congrArg UInt8.toNat hh
-        simp [Nat.toUInt8] at this
-        omega
-      have e1 : (i + 1) / 256 = i / 256 := by omega
-      have e2 : (i + 1) % 256 = i % 256 + 1 := by omega
-      rw [e1, e2]
-      simp only [h0, if_true]
-
-theorem rangeDown_10_0 : Go.rangeDown 10 0 = downFrom 11 := by decide
-
-theorem incNonce_tie (i : Nat) (last : Bool) (h : i + 1 < 2 ^ 88) :
-    stream_incNonce (Stream.nonce i last) = .ok (Stream.nonce (i + 1) last) := by
-  have h' : i + 1 < 256 ^ 11 := by
-    have e : (256 : Nat) ^ 11 = 2 ^ 88 := by decide
-    rw [e]; exact h
-  simp only [stream_incNonce, rangeDown_10_0, Stream.nonce, incNonce_loop 11 i _ h', bind, Except.bind,
-    pure, Except.pure]
-
-/-- the explicit panic of `incNonce` is exactly the wrap of the 88-bit counter -/
-theorem incNonce_wrap (last : Bool) :
-    stream_incNonce (Stream.nonce (2 ^ 88 - 1) last) = .error (.panic 0) := by
-  cases last <;> rfl
-
-theorem setLastChunkFlag_tie (i : Nat) (last : Bool) :
-    stream_setLastChunkFlag (Stream.nonce i last) = .ok (Stream.nonce i true) := by
-  show (Go.set (be 11 i ++ [if last then 1 else 0]) (Int.ofNat 11) 1 >>= fun n => pure n) = _
-  rw [set_append_mid _ _ _ _ 11 (be_length 11 i)]
-  rfl
-
-theorem nonceIsZero_tie (i : Nat) (last : Bool) (h : i < 2 ^ 88) :
-    stream_nonceIsZero (Stream.nonce i last) = .ok (decide (i = 0 ∧ last = false)) := by
-  have e : List.replicate 12 (0 : UInt8) = Stream.nonce 0 false := by decide
-  simp only [stream_nonceIsZero, pure, Except.pure, e]
-  congr 1
-  by_cases hz : i = 0 ∧ last = false
-  · rw [hz.1, hz.2]; simp
-  · rw [decide_eq_false hz]
-    apply beq_eq_false_iff_ne.mpr
-    intro hh
-    exact hz (Stream.nonce_inj i 0 last false h (by decide) hh)
-
-/-! ## internal/format -/
-theorem isValidString_loop (rs : List (Int × Int)) :
-    format_isValidString_loop1 rs =
-      .ok (if rs.any (fun p => decide (p.2 < 33) || decide (p.2 > 126)) then .ret false else .next ()) := by
-  induction rs with
-  | nil => rfl
-  | cons p rest ih =>
-    simp only [format_isValidString_loop1, List.any_cons]
-    by_cases hp : (decide (p.2 < 33) || decide (p.2 > 126)) = true
-    · simp only [hp, if_true, Bool.true_or]; rfl
-    · have hp' := Bool.eq_false_iff.mpr hp
-      simp only [hp', Bool.false_or, ih, Bool.false_eq_true, if_false]
-
-theorem isValidString_tie (s : Bytes) : format_isValidString s = .ok (Format.validString s) := by
-  cases s with
-  | nil => rfl
-  | cons b rest =>
-    have hl : (Go.len (b :: rest) == (0 : Int)) = false := by
-      simp only [Go.len, List.length_cons, Int.ofNat_eq_natCast, beq_eq_false_iff_ne, ne_eq]; omega
-    simp only [format_isValidString, hl, isValidString_loop, runes_any_bad, bind, Except.bind, pure,
-      Except.pure, Bool.false_eq_true, if_false]
-    have hv : Format.validString (b :: rest) = !(b :: rest).any (fun b => b < 33 || b > 126) := by
-      simp only [Format.validString, List.isEmpty_cons, Bool.not_false, Bool.true_and,
-        List.all_eq_not_any_not]
-      congr 2
-      funext c
-      have h1 : decide (c < 33) = !decide (33 ≤ c.toNat) := by
-        rw [← decide_not]; simp only [decide_eq_decide, UInt8.lt_iff_toNat_lt]; show c.toNat < 33 ↔ _; omega
-      have h2 : decide (c > 126) = !decide (c.toNat ≤ 126) := by
-        rw [← decide_not]; simp only [decide_eq_decide, gt_iff_lt, UInt8.lt_iff_toNat_lt]; show 126 < c.toNat ↔ _; omega
-      rw [h1, h2, Bool.not_and]
-    rw [hv]
-    cases (b :: rest).any (fun b => b < 33 || b > 126) <;> rfl
-
-theorem splitByte_splitSp : ∀ (l acc : Bytes),
-    ∃ h t, Format.splitSp l = h :: t ∧ Go.splitByte 32 acc l = (acc.reverse ++ h) :: t
-  | [], acc => ⟨[], [], rfl, by simp [Go.splitByte]⟩
-  | c :: cs, acc => by
-    by_cases hc : c = 32
-    · obtain ⟨h, t, e1, e2⟩ := splitByte_splitSp cs []
-      refine ⟨[], h :: t, ?_, ?_⟩
-      · simp only [Format.splitSp, Format.sp, hc, if_true, e1]
-      · simp only [Go.splitByte, hc, if_true, e2, List.reverse_nil, List.nil_append, List.append_nil]
-    · obtain ⟨h, t, e1, e2⟩ := splitByte_splitSp cs (c :: acc)
-      refine ⟨c :: h, t, ?_, ?_⟩
-      · simp only [Format.splitSp, Format.sp, hc, if_false, e1]
-      · simp only [Go.splitByte, hc, if_false, e2, List.reverse_cons, List.append_assoc,
-          List.singleton_append]
-
-/-- `splitArgs` on a line as `ReadBytes('\n')` returns it (terminator included): first token, remaining tokens -/
-theorem splitArgs_tie (l : Bytes) :
-    format_splitArgs (l ++ [Format.nl]) =
-      .ok (match Format.splitSp l with
-           | h :: t => (h, t)
-           | [] => ([], [])) := by
-  have ht : Go.strings_TrimSuffix (l ++ [Format.nl]) [10] = l := by
-    have : ([10] : List UInt8).isSuffixOf (l ++ [Format.nl]) = true := by
-      simp [Format.nl]
-    simp only [Go.strings_TrimSuffix, this, if_true, List.length_append, List.length_cons,
-      List.length_nil, Nat.add_sub_cancel, List.take_left']
-  obtain ⟨h, t, e1, e2⟩ := splitByte_splitSp l []
-  simp only [format_splitArgs, ht, Go.strings_Split1, e1, e2, List.reverse_nil, List.nil_append]
-  simp only [bind, Except.bind, Go.idx, Int.lt_irrefl, ↓reduceIte, Int.toNat_zero,
-    List.length_cons, Nat.zero_lt_succ, getElem?_pos, List.getElem_cons_zero, Go.slice, Int.zero_le_ofNat, Go.len,
-    Int.ofNat_eq_natCast, Int.natCast_add, Int.cast_ofNat_Int, Std.le_refl, and_true, true_and, Int.toNat_one,
-    Int.toNat_natCast_add_one, List.take_succ_cons, List.take_length, List.drop_succ_cons, List.drop_zero, pure,
-    Except.pure]
-  have : (1 : Int) ≤ ↑t.length + 1 := by omega
-  rw [if_pos this]
-
-/-! ## plugin.validPluginName, age.slicesEqual -/
-
-theorem findIdxInt_nonneg {α : Type} (p : α → Bool) : ∀ l : List α, (0 ≤ Go.findIdxInt p l) ↔ l.any p = true
-  | [] => by simp [Go.findIdxInt]
-  | x :: xs => by
-    have ih := findIdxInt_nonneg p xs
-    simp only [Go.findIdxInt, List.any_cons, Bool.or_eq_true]
-    by_cases hx : p x = true
-    · simp [hx]
-    · simp only [hx, Bool.false_eq_true, if_false, false_or, ← ih]
-      split <;> omega
-
-theorem containsRune_ascii (a : List UInt8) (b : UInt8) (hb : b.toNat < 128) :
-    Go.strings_ContainsRune a (Int.ofNat b.toNat) = a.contains b := by
-  have hr : (0 : Int) ≤ Int.ofNat b.toNat ∧ Int.ofNat b.toNat < 0x80 := by
-    simp only [Int.ofNat_eq_natCast]; omega
-  simp only [Go.strings_ContainsRune, Go.strings_IndexRune, hr, and_self, if_true, ge_iff_le]
-  rw [Bool.eq_iff_iff, decide_eq_true_iff, findIdxInt_nonneg, List.any_eq_true, List.contains_iff_mem]
-  constructor
-  · rintro ⟨c, hc, e⟩
-    have : c = b := by
-      apply UInt8.toNat_inj.mp
-      have e' : (c.toNat : Int) = (b.toNat : Int) := by simpa using e
-      omega
-    exact this ▸ hc
-  · intro h
-    exact ⟨b, h, by simp⟩
-
-theorem containsRune_nonascii (a : List UInt8) (ha : Go.isAscii a = true) (r : Int) (hr : 128 ≤ r) :
-    Go.strings_ContainsRune a r = false := by
-  have : ¬ (0 ≤ r ∧ r < 0x80) := by omega
-  simp only [Go.strings_ContainsRune, Go.strings_IndexRune, this, if_false, ha, if_true]
-  decide
-
-theorem validPluginName_loop (allowed : List UInt8) (rs : List (Int × Int)) :
-    plugin_validPluginName_loop1 allowed rs =
-      .ok (if rs.any (fun p => !Go.strings_ContainsRune allowed p.2) then .ret false else .next ()) := by
-  induction rs with
-  | nil => rfl
-  | cons p rest ih =>
-    simp only [plugin_validPluginName_loop1, List.any_cons]
-    by_cases hp : (!Go.strings_ContainsRune allowed p.2) = true
-    · simp only [hp, if_true, Bool.true_or]; rfl
-    · have hp' := Bool.eq_false_iff.mpr hp
-      simp only [hp', Bool.false_or, ih, Bool.false_eq_true, if_false]
-
-theorem allowed_ascii : Go.isAscii Keys.allowed = true := by decide
-
-theorem allowed_lt : ∀ b : UInt8, 128 ≤ b.toNat → Keys.allowed.contains b = false := by
-  intro b hb
-  rw [Bool.eq_false_iff]
-  intro h
-  have hm := List.contains_iff_mem.mp h
-  have := List.all_eq_true.mp allowed_ascii b hm
-  have := (u8_lt_128 b).mp (of_decide_eq_true this)
-  omega
-
-theorem validPluginName_tie (n : Bytes) : plugin_validPluginName n = .ok (Keys.validPluginName n) := by
-  cases n with
-  | nil => rfl
-  | cons b rest =>
-    have hl : ((b :: rest) == ([] : List UInt8)) = false := rfl
-    have hany := runes_any (fun r => !Go.strings_ContainsRune Keys.allowed r)
-      (fun b => !Keys.allowed.contains b)
-      (fun b hb => by simp only [containsRune_ascii Keys.allowed b hb])
-      (fun b hb => by simp only [allowed_lt b hb, Bool.not_false])
-      (fun r hr => by simp only [containsRune_nonascii Keys.allowed allowed_ascii r hr, Bool.not_false])
-      (b :: rest)
-    have hv : Keys.validPluginName (b :: rest) = !(b :: rest).any (fun b => !Keys.allowed.contains b) := by
-      simp only [Keys.validPluginName, reduceCtorEq, if_false, List.all_eq_not_any_not]
-    rw [hv, ← hany]
-    simp only [plugin_validPluginName, hl, validPluginName_loop, bind, Except.bind, pure,
-      Except.pure, Bool.false_eq_true, if_false]
-    unfold Keys.allowed
-    generalize List.any _ _ = x
-    cases x <;> rfl
-
-theorem idx_ofNat {α : Type} (a : List α) (i : Nat) (h : i < a.length) :
-    Go.idx a (Int.ofNat i) = .ok a[i] := by
-  simp [Go.idx, h]
-
-theorem slicesEqual_loop (s1 s2 : List Bytes) : ∀ (is : List Nat),
-    (∀ i ∈ is, i < s1.length ∧ i < s2.length) →
-    age_slicesEqual_loop1 s1 s2 (is.map Int.ofNat) =
-      .ok (if is.all (fun i => s1[i]? == s2[i]?) then .next () else .ret false)
-  | [], _ => rfl
-  | i :: rest, h => by
-    have hi := h i (List.mem_cons_self ..)
-    have ih := slicesEqual_loop s1 s2 rest (fun j hj => h j (List.mem_cons_of_mem _ hj))
-    simp only [List.map_cons, age_slicesEqual_loop1, idx_ofNat s1 i hi.1, idx_ofNat s2 i hi.2,
-      bind, Except.bind, pure, Except.pure, List.all_cons, List.getElem?_eq_getElem hi.1,
-      List.getElem?_eq_getElem hi.2, ih]
-    by_cases he : s1[i] = s2[i]
-    · simp [he]
-    · simp [he]
-
-theorem rangeUp_0 (n : Nat) : Go.rangeUp 0 (Int.ofNat n) = (List.range n).map Int.ofNat := by
-  simp [Go.rangeUp]
-
-theorem slicesEqual_tie (a b : List Bytes) : age_slicesEqual a b = .ok (decide (a = b)) := by
-  by_cases hl : a.length = b.length
-  · have hl' : (Int.ofNat a.length != Int.ofNat b.length) = false := by
-      rw [hl]; exact bne_self_eq_false _
-    have hloop := slicesEqual_loop a b (List.range a.length)
-      (fun i hi => by have := List.mem_range.mp hi; omega)
-    simp only [age_slicesEqual, Go.len, hl', rangeUp_0, hloop, bind, Except.bind, pure, Except.pure,
-      Bool.false_eq_true, if_false]
-    by_cases hab : a = b
-    · subst hab
-      simp
-    · have : (List.range a.length).all (fun i => a[i]? == b[i]?) = false := by
-        rw [Bool.eq_false_iff]
-        intro hall
-        apply hab
-        apply List.ext_getElem? 
-        intro i
-        by_cases hi : i < a.length
-        · have := List.all_eq_true.mp hall i (List.mem_range.mpr hi)
-          simpa using this
-        · rw [List.getElem?_eq_none (by omega), List.getElem?_eq_none (by omega)]
-      simp [this, hab]
-  · have hl' : (Go.len a != Go.len b) = true := by
-      simp only [Go.len, Int.ofNat_eq_natCast, bne_iff_ne, ne_eq]; omega
-    have hab : a ≠ b := fun h => hl (by rw [h])
-    simp [age_slicesEqual, hl', hab, pure, Except.pure]
-
-end GoTie
-end AgeModel
+import Proofs.GoTieRunes
+import Proofs.GoTieNonce
+import Proofs.GoTieFmtStr
+import Proofs.GoTiePlugName
+import Proofs.GoTieSlicesEq
